@@ -35,14 +35,24 @@
     consequence for this property is C02_found_is_reported: whatever the aligner finds is what match_to with
     its prefilter reports.
 
-    NOT proved here (C02 is partial in this respect): the three cut-position clauses (regular 3' adapter cut
-    at or before the leftmost exact copy, regular 5' at or before its end, 'rightmost').  They rest on the
-    correspondence and on the cut-position oracle run against the implementation.
-    Those rest on the correspondence (model = implementation for prefiltered match_to of all eight
-    classes) and on the planted-occurrence / brute-force / cut-position oracle run against the
-    implementation. *)
+    Also proved (Proofs/AlignCut.v, Proofs/AlignCutTail.v): the cut-position clauses.  If p is the leftmost
+    error-free copy of the whole adapter, a regular 5', regular 3' or 'anywhere' adapter reports either exactly
+    that copy, [p, p + m), or a match that ends before p + m and starts more than m/2 before p (the aligner's
+    "overlaps the previous best sufficiently" rule is why an earlier, poorer match can survive): a 3' adapter
+    is therefore cut at or before p and what is kept holds no error-free copy; a 5' adapter is cut at or before
+    p + m; on the reversed strings the same gives 'rightmost' (cut at or after the end of the rightmost copy).
+    An error-free anchored adapter is removed exactly, also with indels enabled (anchored 5': same theorem with
+    the copy at 0; anchored 3': the reported cost is minimal over all starts, hence 0, hence equal lengths).
+    Ingredients: the copy's diagonal is tracked exactly; a score of m is reached only at cost 0 by the whole
+    adapter; every cell computed at row i in a column j >= p + i has origin >= p (a syntactic invariant of the
+    recurrence: on the copy's diagonal the characters are equal, and a stale cell below the Ukkonen band is too
+    expensive to be chosen); the stale C variable `origin` read by the last-column scan is >= p as well.
+
+    What remains outside the theorems: the model of the aligner is tied to `_align.pyx` by the correspondence
+    (model = implementation for prefiltered match_to of all eight classes) and by the planted-occurrence /
+    brute-force / cut-position oracles run against the implementation. *)
 From Coq Require Import ZArith List Bool Lia.
-From CV Require Import Generated.Scores Model.Align Model.Adapters Model.Kmer Proofs.AdapterProofs Proofs.KmerProofs Proofs.AlignDist Proofs.AlignOpt Proofs.AlignComplete Proofs.AlignFound Proofs.AlignCopyGen Proofs.KmerComplete Proofs.KmerOverlap.
+From CV Require Import Generated.Scores Model.Align Model.Adapters Model.Kmer Proofs.AdapterProofs Proofs.KmerProofs Proofs.AlignDist Proofs.AlignOpt Proofs.AlignComplete Proofs.AlignFound Proofs.AlignCopyGen Proofs.AlignCut Proofs.AlignCutTail Proofs.KmerComplete Proofs.KmerOverlap.
 Import ListNotations.
 Open Scope Z_scope.
 
@@ -230,4 +240,160 @@ Proof.
   - intros t Hr. assert (Hc : t = 0 \/ t = 1 \/ t = 2 \/ t = 3 \/ t = 4 \/ t = 5 \/ t = 6) by lia.
     destruct Hc as [->|[->|[->|[->|[->|[->| ->]]]]]]; vm_compute; reflexivity.
   - vm_compute. discriminate.
+Qed.
+
+(** ---- the cut-position clauses (Proofs/AlignCut.v, Proofs/AlignCutTail.v) *)
+
+(** regular 5', regular 3' and 'anywhere' adapters (indels enabled or disabled, also with force_anywhere): if
+    [p] is the leftmost error-free copy of the whole adapter, the reported match is that copy, or it ends before
+    p + m and starts more than m/2 before p *)
+Theorem C02_leftmost_copy : forall thr ad read p mt,
+  (a_type ad = Front \/ a_type ad = Back \/ a_type ad = Anywhere) ->
+  (forall L0, 0 <= thr L0) -> (forall L0, thr L0 <= thr (zlen (a_seq ad))) -> thr (zlen (a_seq ad)) <= zlen (a_seq ad) ->
+  1 <= zlen (a_seq ad) -> a_min_overlap ad <= zlen (a_seq ad) -> 0 <= p -> p + zlen (a_seq ad) <= zlen read ->
+  (forall t, 0 <= t < zlen (a_seq ad) ->
+     loc_eqc (ad_cfg ad) (a_wq ad) (znth 0 (loc_s1 (ad_cfg ad) (a_wq ad) (a_seq ad)) t)
+                                   (znth 0 (loc_s2 (ad_cfg ad) (a_wq ad) (ad_query ad read)) (p + t)) = true) ->
+  (forall p', 0 <= p' < p ->
+     ~ (forall t, 0 <= t < zlen (a_seq ad) ->
+          loc_eqc (ad_cfg ad) (a_wq ad) (znth 0 (loc_s1 (ad_cfg ad) (a_wq ad) (a_seq ad)) t)
+                                        (znth 0 (loc_s2 (ad_cfg ad) (a_wq ad) (ad_query ad read)) (p' + t)) = true)) ->
+  match_to thr ad read = Some mt ->
+  (rstart mt = p /\ rstop mt = p + zlen (a_seq ad) /\ astart mt = 0 /\ astop mt = zlen (a_seq ad) /\ merrors mt = 0) \/
+  (0 <= rstart mt /\ rstart mt + zlen (a_seq ad) / 2 < p /\ rstop mt < p + zlen (a_seq ad) /\ astart mt = 0 /\ astop mt = zlen (a_seq ad)).
+Proof. exact match_to_leftmost_copy. Qed.
+Print Assumptions C02_leftmost_copy.
+
+(** "A regular 3' adapter is cut at or before the leftmost error-free full copy (so no exact copy of it remains in
+    the output)" *)
+Theorem C02_back_cut_at_or_before : forall thr ad read p mt,
+  a_type ad = Back ->
+  (forall L0, 0 <= thr L0) -> (forall L0, thr L0 <= thr (zlen (a_seq ad))) -> thr (zlen (a_seq ad)) <= zlen (a_seq ad) ->
+  1 <= zlen (a_seq ad) -> a_min_overlap ad <= zlen (a_seq ad) -> 0 <= p -> p + zlen (a_seq ad) <= zlen read ->
+  (forall t, 0 <= t < zlen (a_seq ad) ->
+     loc_eqc (ad_cfg ad) (a_wq ad) (znth 0 (loc_s1 (ad_cfg ad) (a_wq ad) (a_seq ad)) t)
+                                   (znth 0 (loc_s2 (ad_cfg ad) (a_wq ad) (ad_query ad read)) (p + t)) = true) ->
+  (forall p', 0 <= p' < p ->
+     ~ (forall t, 0 <= t < zlen (a_seq ad) ->
+          loc_eqc (ad_cfg ad) (a_wq ad) (znth 0 (loc_s1 (ad_cfg ad) (a_wq ad) (a_seq ad)) t)
+                                        (znth 0 (loc_s2 (ad_cfg ad) (a_wq ad) (ad_query ad read)) (p' + t)) = true)) ->
+  match_to thr ad read = Some mt ->
+  rstart mt <= p /\
+  forall q, 0 <= q -> q + zlen (a_seq ad) <= rstart mt ->
+    ~ (forall t, 0 <= t < zlen (a_seq ad) ->
+         loc_eqc (ad_cfg ad) (a_wq ad) (znth 0 (loc_s1 (ad_cfg ad) (a_wq ad) (a_seq ad)) t)
+                                       (znth 0 (loc_s2 (ad_cfg ad) (a_wq ad) (ad_query ad read)) (q + t)) = true).
+Proof. exact back_cut_at_or_before. Qed.
+Print Assumptions C02_back_cut_at_or_before.
+
+(** "a regular 5' adapter at or before the end of the leftmost copy" *)
+Theorem C02_front_cut_at_or_before : forall thr ad read p mt,
+  a_type ad = Front ->
+  (forall L0, 0 <= thr L0) -> (forall L0, thr L0 <= thr (zlen (a_seq ad))) -> thr (zlen (a_seq ad)) <= zlen (a_seq ad) ->
+  1 <= zlen (a_seq ad) -> a_min_overlap ad <= zlen (a_seq ad) -> 0 <= p -> p + zlen (a_seq ad) <= zlen read ->
+  (forall t, 0 <= t < zlen (a_seq ad) ->
+     loc_eqc (ad_cfg ad) (a_wq ad) (znth 0 (loc_s1 (ad_cfg ad) (a_wq ad) (a_seq ad)) t)
+                                   (znth 0 (loc_s2 (ad_cfg ad) (a_wq ad) (ad_query ad read)) (p + t)) = true) ->
+  (forall p', 0 <= p' < p ->
+     ~ (forall t, 0 <= t < zlen (a_seq ad) ->
+          loc_eqc (ad_cfg ad) (a_wq ad) (znth 0 (loc_s1 (ad_cfg ad) (a_wq ad) (a_seq ad)) t)
+                                        (znth 0 (loc_s2 (ad_cfg ad) (a_wq ad) (ad_query ad read)) (p' + t)) = true)) ->
+  match_to thr ad read = Some mt ->
+  rstop mt <= p + zlen (a_seq ad).
+Proof. exact front_cut_at_or_before. Qed.
+Print Assumptions C02_front_cut_at_or_before.
+
+(** "(at or after the end of the rightmost one with 'rightmost')": the match is the rightmost copy, or it starts
+    behind p and ends more than m/2 behind p + m *)
+Theorem C02_rightmost_copy : forall thr ad read p mt,
+  a_type ad = RightmostFront -> a_force_anywhere ad = false ->
+  (forall L0, 0 <= thr L0) -> (forall L0, thr L0 <= thr (zlen (a_seq ad))) -> thr (zlen (a_seq ad)) <= zlen (a_seq ad) ->
+  1 <= zlen (a_seq ad) -> a_min_overlap ad <= zlen (a_seq ad) -> 0 <= p -> p + zlen (a_seq ad) <= zlen read ->
+  (forall t, 0 <= t < zlen (a_seq ad) ->
+     loc_eqc (ad_cfg ad) (a_wq ad) (znth 0 (loc_s1 (ad_cfg ad) (a_wq ad) (a_seq ad)) t)
+                                   (znth 0 (loc_s2 (ad_cfg ad) (a_wq ad) read) (p + t)) = true) ->
+  (forall p', p < p' -> p' + zlen (a_seq ad) <= zlen read ->
+     ~ (forall t, 0 <= t < zlen (a_seq ad) ->
+          loc_eqc (ad_cfg ad) (a_wq ad) (znth 0 (loc_s1 (ad_cfg ad) (a_wq ad) (a_seq ad)) t)
+                                        (znth 0 (loc_s2 (ad_cfg ad) (a_wq ad) read) (p' + t)) = true)) ->
+  match_to thr ad read = Some mt ->
+  (rstart mt = p /\ rstop mt = p + zlen (a_seq ad) /\ astart mt = 0 /\ astop mt = zlen (a_seq ad) /\ merrors mt = 0) \/
+  (p + zlen (a_seq ad) + zlen (a_seq ad) / 2 < rstop mt /\ rstop mt <= zlen read /\ p < rstart mt /\ astart mt = 0 /\ astop mt = zlen (a_seq ad)).
+Proof. exact match_to_rightmost_copy. Qed.
+Print Assumptions C02_rightmost_copy.
+
+Theorem C02_rightmost_cut_at_or_after : forall thr ad read p mt,
+  a_type ad = RightmostFront -> a_force_anywhere ad = false ->
+  (forall L0, 0 <= thr L0) -> (forall L0, thr L0 <= thr (zlen (a_seq ad))) -> thr (zlen (a_seq ad)) <= zlen (a_seq ad) ->
+  1 <= zlen (a_seq ad) -> a_min_overlap ad <= zlen (a_seq ad) -> 0 <= p -> p + zlen (a_seq ad) <= zlen read ->
+  (forall t, 0 <= t < zlen (a_seq ad) ->
+     loc_eqc (ad_cfg ad) (a_wq ad) (znth 0 (loc_s1 (ad_cfg ad) (a_wq ad) (a_seq ad)) t)
+                                   (znth 0 (loc_s2 (ad_cfg ad) (a_wq ad) read) (p + t)) = true) ->
+  (forall p', p < p' -> p' + zlen (a_seq ad) <= zlen read ->
+     ~ (forall t, 0 <= t < zlen (a_seq ad) ->
+          loc_eqc (ad_cfg ad) (a_wq ad) (znth 0 (loc_s1 (ad_cfg ad) (a_wq ad) (a_seq ad)) t)
+                                        (znth 0 (loc_s2 (ad_cfg ad) (a_wq ad) read) (p' + t)) = true)) ->
+  match_to thr ad read = Some mt ->
+  p + zlen (a_seq ad) <= rstop mt.
+Proof. exact rightmost_cut_at_or_after. Qed.
+Print Assumptions C02_rightmost_cut_at_or_after.
+
+(** "an error-free anchored adapter is removed exactly", indels enabled (the aligner is used; for indels disabled
+    see C02_anchored_noindels_complete above): anchored 5' ... *)
+Theorem C02_anchored5_exact : forall thr ad read mt,
+  a_type ad = Prefix -> a_indels ad = true ->
+  (forall L0, 0 <= thr L0) -> (forall L0, thr L0 <= thr (zlen (a_seq ad))) -> thr (zlen (a_seq ad)) <= zlen (a_seq ad) ->
+  1 <= zlen (a_seq ad) -> a_min_overlap ad <= zlen (a_seq ad) -> zlen (a_seq ad) <= zlen read ->
+  (forall t, 0 <= t < zlen (a_seq ad) ->
+     loc_eqc (ad_cfg ad) (a_wq ad) (znth 0 (loc_s1 (ad_cfg ad) (a_wq ad) (a_seq ad)) t)
+                                   (znth 0 (loc_s2 (ad_cfg ad) (a_wq ad) read) t) = true) ->
+  match_to thr ad read = Some mt ->
+  rstart mt = 0 /\ rstop mt = zlen (a_seq ad) /\ astart mt = 0 /\ astop mt = zlen (a_seq ad) /\ merrors mt = 0.
+Proof. exact match_to_anchored5_exact. Qed.
+Print Assumptions C02_anchored5_exact.
+
+(** ... and anchored 3' *)
+Theorem C02_anchored3_exact : forall thr ad read mt,
+  a_type ad = Suffix -> a_indels ad = true ->
+  0 <= thr (zlen (a_seq ad)) -> (forall L0, thr L0 <= thr (zlen (a_seq ad))) -> zlen (a_seq ad) <= zlen read ->
+  (forall t, 0 <= t < zlen (a_seq ad) ->
+     loc_eqc (ad_cfg ad) (a_wq ad) (znth 0 (loc_s1 (ad_cfg ad) (a_wq ad) (a_seq ad)) t)
+                                   (znth 0 (loc_s2 (ad_cfg ad) (a_wq ad) read) (zlen read - zlen (a_seq ad) + t)) = true) ->
+  match_to thr ad read = Some mt ->
+  rstart mt = zlen read - zlen (a_seq ad) /\ rstop mt = zlen read /\ astart mt = 0 /\ astop mt = zlen (a_seq ad) /\ merrors mt = 0.
+Proof. exact match_to_anchored3_exact. Qed.
+Print Assumptions C02_anchored3_exact.
+
+(** non-vacuity of C02_leftmost_copy, second alternative: -a ACGTACGTAC (30%) on ACGTTCGAACGGACGTACGTAC.  The
+    leftmost error-free copy is at 12; the match reported is [0, 10) with two errors, recorded before the copy's
+    last column and starting more than 5 characters before 12 -- the read is cut at 0 <= 12 *)
+Definition ex5_ad : adapter := mkAd Back [65;67;71;84;65;67;71;84;65;67] false false true 3 false.
+Definition ex5_thr : Z -> Z := thr_of [0;0;0;0;1;1;1;2;2;2;3].
+Definition ex5_read : list Z := [65;67;71;84;84;67;71;65;65;67;71;71;65;67;71;84;65;67;71;84;65;67].
+Example C02_cut_instance_earlier_match :
+  (forall L, 0 <= ex5_thr L) /\ (forall L, ex5_thr L <= ex5_thr (zlen (a_seq ex5_ad))) /\
+  (forall t, 0 <= t < zlen (a_seq ex5_ad) ->
+     loc_eqc (ad_cfg ex5_ad) (a_wq ex5_ad) (znth 0 (loc_s1 (ad_cfg ex5_ad) (a_wq ex5_ad) (a_seq ex5_ad)) t)
+             (znth 0 (loc_s2 (ad_cfg ex5_ad) (a_wq ex5_ad) (ad_query ex5_ad ex5_read)) (12 + t)) = true) /\
+  (forall p', 0 <= p' < 12 ->
+     ~ (forall t, 0 <= t < zlen (a_seq ex5_ad) ->
+          loc_eqc (ad_cfg ex5_ad) (a_wq ex5_ad) (znth 0 (loc_s1 (ad_cfg ex5_ad) (a_wq ex5_ad) (a_seq ex5_ad)) t)
+                  (znth 0 (loc_s2 (ad_cfg ex5_ad) (a_wq ex5_ad) (ad_query ex5_ad ex5_read)) (p' + t)) = true)) /\
+  match_to ex5_thr ex5_ad ex5_read = Some (mkM 0 10 0 10 6 2 1).
+Proof.
+  split; [intros L; apply (thr_of_bounds [0;0;0;0;1;1;1;2;2;2;3] 0 3); [repeat constructor; lia | lia]|].
+  split; [intros L; change (ex5_thr (zlen (a_seq ex5_ad))) with 3; apply (thr_of_bounds [0;0;0;0;1;1;1;2;2;2;3] 0 3); [repeat constructor; lia | lia]|].
+  split.
+  { intros t Hr. change (zlen (a_seq ex5_ad)) with 10 in Hr.
+    assert (Hc : t = 0 \/ t = 1 \/ t = 2 \/ t = 3 \/ t = 4 \/ t = 5 \/ t = 6 \/ t = 7 \/ t = 8 \/ t = 9) by lia.
+    destruct Hc as [->|[->|[->|[->|[->|[->|[->|[->|[->| ->]]]]]]]]]; vm_compute; reflexivity. }
+  split; [|vm_compute; reflexivity].
+  intros p' Hp' Hall. change (zlen (a_seq ex5_ad)) with 10 in Hall.
+  assert (Hc : p' = 0 \/ p' = 1 \/ p' = 2 \/ p' = 3 \/ p' = 4 \/ p' = 5 \/ p' = 6 \/ p' = 7 \/ p' = 8 \/ p' = 9 \/ p' = 10 \/ p' = 11) by lia.
+  destruct Hc as [->|[->|[->|[->|[->|[->|[->|[->|[->|[->|[->| ->]]]]]]]]]]];
+    first [ pose proof (Hall 0 ltac:(lia)) as Hx; vm_compute in Hx; discriminate
+          | pose proof (Hall 1 ltac:(lia)) as Hx; vm_compute in Hx; discriminate
+          | pose proof (Hall 2 ltac:(lia)) as Hx; vm_compute in Hx; discriminate
+          | pose proof (Hall 3 ltac:(lia)) as Hx; vm_compute in Hx; discriminate
+          | pose proof (Hall 4 ltac:(lia)) as Hx; vm_compute in Hx; discriminate ].
 Qed.
